@@ -52,6 +52,8 @@ class Impl:
             fr = st.RF24NetworkFrame()
         fr.header.from_node, fr.header.to_node = f["from"], 0o1
         fr.header.frame_id, fr.header.message_type, fr.header.reserved = f["id"], f["type"], 0
+        if how == "str":
+            fr.header.message_type = chr(f["type"])      # "When set using a str ..." (documented for the attribute)
         fr.message = bytearray(f["body"])
         res = self.queue().enqueue(fr)
         if how == "mutate":  # the caller scribbles over the object it passed in
@@ -180,7 +182,7 @@ def random_history(rng, depth, via_node):
             if impl.frag_on() and rng.random() < 0.3:
                 ev = apply_label(impl, "EnqFrag", [f])
             else:
-                ev = apply_label(impl, "Enq", [f, rng.choice(["fresh", "mutate", "reuse"])])
+                ev = apply_label(impl, "Enq", [f, rng.choice(["fresh", "mutate", "reuse", "str"])])
         elif x < 0.75:
             ev = apply_label(impl, "Deq", [])
         elif x < 0.85:
